@@ -107,10 +107,12 @@ func (b *Broker) doHeartBeat(ctx context.Context, id string) {
 		}
 		return newValue
 	})
-	ctx, cancel := context.WithTimeout(ctx, b.HeartBeat)
+	// the heart beat runs from now on, whatever becomes of the request or the
+	// connection that ctx belongs to (it may be the publisher's)
+	timeout, cancel := context.WithTimeout(context.Background(), b.HeartBeat)
 	defer cancel()
 	select {
-	case <-ctx.Done():
+	case <-timeout.Done():
 		if topics, ok := b.messages.Load(id); ok {
 			topics := topics.(*sync.Map)
 			topics.Range(func(key, value interface{}) bool {
